@@ -272,3 +272,34 @@ Print Assumptions C15_full_means_not_dirty.
 Print Assumptions C15_mark_exact.
 Print Assumptions C15_invariants_reachable.
 Print Assumptions C15_pass_succeeds_with_enough_fuel.
+
+(* ---- the TRANSLATED mark_dirty (Gen/EngineGlueGen.v, regenerated from src/tree/taffy_tree.rs TaffyTree::mark_dirty + its inner fn,
+   NodeData::mark_dirty and src/tree/cache.rs Cache::clear on every run) over the accessors of Model/EngineGlue.v (the tree as the node
+   store, paths as keys, parent = removelast) IS the walk `mark_dirty` all theorems above are about, early exit included, for every
+   fuel above the depth of the node ---- *)
+From TV Require Import Gen.EngineGlueGen Model.EngineGlue Proofs.EngineGlueProofs.
+From TV Require Model.EngineGlueTables.
+
+Theorem C15_translated_mark_dirty_is_model :
+  forall (S In Out Lay : Type) (t u : tree S In Out Lay) (p : list nat) (fuel : nat),
+    subtree S In Out Lay t p = Some u -> length p < fuel ->
+    eg_mark_dirty S In Out Lay fuel t p = mark_dirty S In Out Lay t p.
+Proof. intros. eapply translated_mark_dirty_is_model; eauto. Qed.
+
+(* non-vacuity, computed: on the tree the toy history ends with, marking the (clean) first child dirty walks up to the root and clears
+   both caches; marking it again stops at once *)
+Example C15_translated_mark_dirty_example :
+  let t1 := eg_mark_dirty TS TIn TOut TLay 2 ex_run [0] in
+  (exists u, subtree TS TIn TOut TLay ex_run [0] = Some u) /\
+  t1 = mark_dirty TS TIn TOut TLay ex_run [0] /\
+  map (fun t => dirty TS TIn TOut TLay t) (t1 :: kids_of _ _ _ _ t1) = [true; true; false] /\
+  eg_mark_dirty TS TIn TOut TLay 2 t1 [0] = t1.
+Proof. split; [eexists; vm_compute; reflexivity|]. vm_compute. repeat split; reflexivity. Qed.
+
+(* every mutator of TaffyTree ends its edit with exactly ONE top-level, unconditional `self.mark_dirty(x)?;` (the generator refuses a
+   mark_dirty under an `if` / `match` / loop): the node each of them names, as Model/EngineForest.v `step_op` has it *)
+Example C15_translated_mutators_mark_dirty_unconditionally :
+  glue_mutator_marks = EngineGlueTables.expected_mutator_marks.
+Proof. reflexivity. Qed.
+
+Print Assumptions C15_translated_mark_dirty_is_model.
